@@ -214,6 +214,104 @@ func kdot(x, y []float32) float32 { return -fnDot(x, y) }
 
 func implKern(x, y []float32) string { return intStr(kdot(x, y)) + " " + intStr(fnEuclid(x, y)) }
 
+// ------------------------------------------------------------------------------------------ formula lines (generated expressions, evaluated by the driver)
+
+func f32hexN(f float32) string {
+	if f != f {
+		return "nan"
+	}
+	return f32hex(f)
+}
+
+func hexU8(v []uint8) string {
+	if len(v) == 0 {
+		return "-"
+	}
+	b := make([]byte, len(v)*2)
+	for i, c := range v {
+		putHex(b[i*2:], uint64(c), 2)
+	}
+	return string(b)
+}
+
+func parseU8(s string) ([]uint8, error) {
+	if s == "-" {
+		return nil, nil
+	}
+	if len(s)%2 != 0 {
+		return nil, fmt.Errorf("bad bytes")
+	}
+	r := make([]uint8, len(s)/2)
+	for i := range r {
+		u, err := strconv.ParseUint(s[i*2:i*2+2], 16, 8)
+		if err != nil {
+			return nil, err
+		}
+		r[i] = uint8(u)
+	}
+	return r, nil
+}
+
+func implDotd(x, y []float32) string { return f32hexN(fnDot(x, y)) }
+func implCosd(x, y []float32) string { return f32hexN(fnCosine(x, y)) }
+func implPdot(x, y []float32) string { return f32hexN(distance.VerifDotPureGo(x, y)) }
+func implPl2(x, y []float32) string  { return f32hexN(distance.VerifL2PureGo(x, y)) }
+
+// the answer to a `havf` line is "ok": the line carries the real result, the model says whether its own
+// evaluation of the generated expression is within the stated bound of it
+func implHavf(x, y []float32, real string) string {
+	if f32hex(fnHaversine(x, y)) != real {
+		return "stale:" + f32hex(fnHaversine(x, y))
+	}
+	return "ok"
+}
+
+func implPqf(ns, k, l int, flat, x []float32, codes []uint8) (out string) {
+	defer func() {
+		if r := recover(); r != nil {
+			out = "panic: " + fmt.Sprint(r)
+		}
+	}()
+	ff, _ := vectorstore.VerifProductDistances(ns, k, l, distance.VerifL2PureGo, flat, make([]float32, ns*k*k), x, make([]uint8, ns), codes)
+	return f32hexN(ff)
+}
+
+func implPqp(ns, k int, cd []float32, cx, cy []uint8) (out string) {
+	defer func() {
+		if r := recover(); r != nil {
+			out = "panic: " + fmt.Sprint(r)
+		}
+	}()
+	// flatCentroids only has to be non-empty (fitted); the look-up of DistanceFromPoint does not read it
+	_, fp := vectorstore.VerifProductDistances(ns, k, 1, distance.VerifL2PureGo, make([]float32, ns*k), cd, make([]float32, ns), cx, cy)
+	return f32hexN(fp)
+}
+
+func implBqw(metric string, t, x, y []float32) (out string) {
+	defer func() {
+		if r := recover(); r != nil {
+			out = "panic: " + fmt.Sprint(r)
+		}
+	}()
+	ff, fp, err := vectorstore.VerifBinaryDistances(t, metric, "euclidean", x, y)
+	if err != nil {
+		return "error " + err.Error()
+	}
+	return f32hexN(ff) + " " + f32hexN(fp)
+}
+
+// independent float64 evaluation of the documented formulas (for the oracle on the formula lines)
+func refHav64(x, y []float32) float64 {
+	const d2r = 0.017453292519943295769236907684886 // pi / 180
+	la1, lo1, la2, lo2 := float64(x[0])*d2r, float64(x[1])*d2r, float64(y[0])*d2r, float64(y[1])*d2r
+	s1, s2 := math.Sin((la1-la2)/2), math.Sin((lo1-lo2)/2)
+	a := s1*s1 + math.Cos(la1)*math.Cos(la2)*s2*s2
+	if a > 1 {
+		a = 1
+	}
+	return 6371000 * 2 * math.Asin(math.Sqrt(a))
+}
+
 // ------------------------------------------------------------------------------------------ references
 
 const u32 = 1.0 / (1 << 24) // unit roundoff of float32
@@ -832,6 +930,10 @@ func run(rng *vh.Rng, o *vh.Out, full bool) map[string]any {
 			o.Emit("fl2-sample", "fl2 "+hexW32(x)+" "+hexW32(y), "n/a", false)
 		}
 	}
+	// ---------------------------------------------------------------- formula lines: the generated expressions against the real functions
+	if emitLines {
+		formulaLines(rng, o, full)
+	}
 	// ---------------------------------------------------------------- haversine
 	pts := [][]float32{{0, 0}, {0, 180}, {0, -180}, {90, 0}, {-90, 0}, {90, 180}, {45, 0}, {-45, 180}, {51.5, -0.12}, {-33.87, 151.2}, {0, 179.99}, {0, -179.99}, {1e-6, 1e-6}, {89.999, 10}, {-89.999, -170}}
 	// corpus: antipodal pairs on which sin^2 + cos*cos*sin^2 rounds to 1 + 2^-52 in float64 (asin of it is NaN
@@ -885,6 +987,163 @@ func run(rng *vh.Rng, o *vh.Out, full bool) map[string]any {
 		},
 	}
 	return extra
+}
+
+// dot / cosine distance over the value of dotProductImpl, the two pure Go loops, haversine, the product quantiser:
+// the driver evaluates the expression trees generated from the source with hardware floats
+func formulaLines(rng *vh.Rng, o *vh.Out, full bool) {
+	nl := 130
+	if full {
+		nl = 600
+	}
+	for n := 1; n <= nl; n++ {
+		for dist := 0; dist < nDist; dist++ {
+			if n > 40 && (n+dist)%7 != 0 {
+				continue
+			}
+			x, y := genFloats(rng, n, dist)
+			k := distance.VerifDotImpl(x, y)
+			o.Emit("dotd", "dotd "+hexW32(x)+" "+hexW32(y)+" "+f32hex(k), implDotd(x, y), true)
+			o.Emit("cosd", "cosd "+hexW32(x)+" "+hexW32(y)+" "+f32hex(k), implCosd(x, y), true)
+			o.Emit("pdot", "pdot "+hexW32(x)+" "+hexW32(y), implPdot(x, y), true)
+			o.Emit("pl2", "pl2 "+hexW32(x)+" "+hexW32(y), implPl2(x, y), true)
+			// the property on the same inputs: the reference loops are the left-to-right float32 sums
+			var sd, sl float32
+			for i := range x {
+				sd += x[i] * y[i]
+				d := x[i] - y[i]
+				sl += d * d
+			}
+			if g := distance.VerifDotPureGo(x, y); math.Float32bits(g) != math.Float32bits(sd) && g == g {
+				o.Fail(fmt.Sprintf("pure-dot-formula:n=%d:dist=%s", n, distNames[dist]), fmt.Sprintf("dotProductPureGo = %v, left-to-right float32 sum of x_i*y_i = %v", g, sd), "pdot "+hexW32(x)+" "+hexW32(y))
+			}
+			if g := distance.VerifL2PureGo(x, y); math.Float32bits(g) != math.Float32bits(sl) && g == g {
+				o.Fail(fmt.Sprintf("pure-l2-formula:n=%d:dist=%s", n, distNames[dist]), fmt.Sprintf("squaredEuclideanDistancePureGo = %v, left-to-right float32 sum of (x_i-y_i)^2 = %v", g, sl), "pl2 "+hexW32(x)+" "+hexW32(y))
+			}
+			if g := fnDot(x, y); math.Float32bits(g) != math.Float32bits(-k) && g == g {
+				o.Fail(fmt.Sprintf("dot-distance-formula:n=%d:dist=%s", n, distNames[dist]), fmt.Sprintf("dot distance = %v, -dotProductImpl = %v", g, -k), "dotd "+hexW32(x)+" "+hexW32(y)+" "+f32hex(k))
+			}
+			if g := fnCosine(x, y); math.Float32bits(g) != math.Float32bits(1-k) && g == g {
+				o.Fail(fmt.Sprintf("cosine-distance-formula:n=%d:dist=%s", n, distNames[dist]), fmt.Sprintf("cosine distance = %v, 1 - dotProductImpl = %v", g, 1-k), "cosd "+hexW32(x)+" "+hexW32(y)+" "+f32hex(k))
+			}
+		}
+	}
+	// special values of the kernel result (the expression is a function of k alone)
+	for _, kb := range f32pool {
+		k := math.Float32frombits(kb)
+		x, y := []float32{k}, []float32{1}
+		k = distance.VerifDotImpl(x, y) // (+0 for k = -0: the kernel's accumulator starts at +0)
+		if k != k {
+			continue
+		}
+		o.Emit("dotd-special", "dotd "+hexW32(x)+" "+hexW32(y)+" "+f32hex(k), implDotd(x, y), true)
+		o.Emit("cosd-special", "cosd "+hexW32(x)+" "+hexW32(y)+" "+f32hex(k), implCosd(x, y), true)
+	}
+	// haversine: boundary points, antipodes (the clamp), close neighbours, random pairs
+	hpts := [][]float32{{0, 0}, {0, 180}, {0, -180}, {90, 0}, {-90, 0}, {90, 180}, {45, 0}, {-45, 180}, {51.5, -0.12}, {-33.87, 151.2}, {0, 179.99}, {0, -179.99},
+		{1e-6, 1e-6}, {89.999, 10}, {-89.999, -170}, {-46.425, -80.596}, {46.425, 99.404}, {47.783997, -28.938995}, {-47.783997, 151.061}}
+	nh := 1500
+	if full {
+		nh = 15000
+	}
+	for i := 0; i < nh; i++ {
+		p := []float32{float32(rng.Intn(180001))/1000 - 90, float32(rng.Intn(360001))/1000 - 180}
+		hpts = append(hpts, p)
+		switch rng.Intn(4) {
+		case 0:
+			lon := p[1] + 180
+			if lon > 180 {
+				lon -= 360
+			}
+			hpts = append(hpts, []float32{-p[0], lon})
+		case 1:
+			hpts = append(hpts, []float32{p[0] + float32(rng.Intn(100))/1e5, p[1] - float32(rng.Intn(100))/1e5})
+		}
+	}
+	for i := 0; i+1 < len(hpts); i++ {
+		js := []int{i + 1}
+		if i < 19 {
+			js = js[:0]
+			for j := 0; j < 19; j++ {
+				js = append(js, j)
+			}
+		}
+		for _, j := range js {
+			x, y := hpts[i], hpts[j]
+			g := fnHaversine(x, y)
+			line := "havf " + hexW32(x) + " " + hexW32(y) + " " + f32hex(g)
+			o.Emit("havf", line, implHavf(x, y, f32hex(g)), true)
+			// the property: the documented formula, evaluated independently in float64 (float32 result: half an ulp,
+			// plus the conditioning of asin near antipodal points; same tolerance as the sweep above)
+			want := refHav64(x, y)
+			t := math.Abs(want)*math.Ldexp(1, -22) + 1e-3 + 1
+			if !(math.Abs(float64(g)-want) <= t) {
+				o.Fail(fmt.Sprintf("haversine-formula:%v,%v-%v,%v", x[0], x[1], y[0], y[1]), fmt.Sprintf("haversine = %v, float64 evaluation of the documented formula = %v", g, want), line)
+			}
+		}
+	}
+	// binary quantiser wiring: trained (threshold set) -> bit distance of the encodings, untrained -> the float distance
+	for i := 0; i < 400; i++ {
+		n := 1 + rng.Intn(130)
+		t := genThreshold(rng, n)
+		x, y := genVector(rng, t), genVector(rng, t)
+		for k := range x { // NaN-free vectors: the float distance of the untrained case is compared as a value
+			if x[k] != x[k] || math.IsInf(float64(x[k]), 0) || math.Abs(float64(x[k])) > 1e15 {
+				x[k] = float32(k%7) - 3
+			}
+			if y[k] != y[k] || math.IsInf(float64(y[k]), 0) || math.Abs(float64(y[k])) > 1e15 {
+				y[k] = float32(k%5) - 2
+			}
+		}
+		thr := t
+		if i%3 == 0 {
+			thr = nil // not fitted yet
+		}
+		metric := []string{"hamming", "jaccard"}[i%2]
+		fk := fnEuclid(x, y)
+		o.Emit("bqw", "bqw "+metric+" "+hexW32(thr)+" "+hexW32(x)+" "+hexW32(y)+" "+f32hex(fk), implBqw(metric, thr, x, y), true)
+	}
+	// product quantiser: small tables, every code value; distFn of the table build = the pure Go euclidean loop
+	npq := 300
+	if full {
+		npq = 3000
+	}
+	for i := 0; i < npq; i++ {
+		ns, k, l := 1+rng.Intn(6), 2+rng.Intn(7), 1+rng.Intn(5)
+		if i < 8 {
+			ns, k, l = 1+i%3, 2+i%2, 1+i%4
+		}
+		flat, _ := genFloats(rng, ns*k*l, []int{dUnit, dMixed, dZeros}[rng.Intn(3)])
+		x, _ := genFloats(rng, ns*l, []int{dUnit, dMixed, dZeros}[rng.Intn(3)])
+		cd, _ := genFloats(rng, ns*k*k, []int{dUnit, dMixed, dLarge}[rng.Intn(3)])
+		cx, cy := make([]uint8, ns), make([]uint8, ns)
+		for j := range cx {
+			cx[j], cy[j] = uint8(rng.Intn(k)), uint8(rng.Intn(k))
+		}
+		lf := fmt.Sprintf("pqf %d %d %d %s %s %s", ns, k, l, hexW32(flat), hexW32(x), hexU8(cy))
+		lp := fmt.Sprintf("pqp %d %d %s %s %s", ns, k, hexW32(cd), hexU8(cx), hexU8(cy))
+		af, ap := implPqf(ns, k, l, flat, x, cy), implPqp(ns, k, cd, cx, cy)
+		o.Emit("pqf", lf, af, true)
+		o.Emit("pqp", lp, ap, true)
+		// the property: sum over the sub-vectors of one table entry each (left to right, float32)
+		var wf, wp float32
+		for s := 0; s < ns; s++ {
+			c := flat[(s*k+int(cy[s]))*l : (s*k+int(cy[s])+1)*l]
+			var d float32
+			for t := 0; t < l; t++ {
+				df := x[s*l+t] - c[t]
+				d += df * df
+			}
+			wf += d
+			wp += cd[s*k*k+int(cx[s])*k+int(cy[s])]
+		}
+		if af != f32hexN(wf) {
+			o.Fail(fmt.Sprintf("pq-from-float-formula:ns=%d:k=%d:l=%d", ns, k, l), fmt.Sprintf("quantised distance (query vector) = %s, sum of sub-vector distances to the point's centroids = %s", af, f32hexN(wf)), lf)
+		}
+		if ap != f32hexN(wp) {
+			o.Fail(fmt.Sprintf("pq-from-point-formula:ns=%d:k=%d", ns, k), fmt.Sprintf("quantised distance (stored points) = %s, sum of centroid-distance table entries = %s", ap, f32hexN(wp)), lp)
+		}
+	}
 }
 
 // ------------------------------------------------------------------------------------------ replay
@@ -950,6 +1209,39 @@ func replayLine(line string) (out string) {
 			panic(err)
 		}
 		return implKern(x, y)
+	case f[0] == "dotd" && len(f) == 4:
+		return implDotd(w32(1), w32(2))
+	case f[0] == "cosd" && len(f) == 4:
+		return implCosd(w32(1), w32(2))
+	case f[0] == "pdot" && len(f) == 3:
+		return implPdot(w32(1), w32(2))
+	case f[0] == "pl2" && len(f) == 3:
+		return implPl2(w32(1), w32(2))
+	case f[0] == "havf" && len(f) == 4:
+		return implHavf(w32(1), w32(2), f[3])
+	case f[0] == "pqf" && len(f) == 7:
+		ns, _ := strconv.Atoi(f[1])
+		k, _ := strconv.Atoi(f[2])
+		l, _ := strconv.Atoi(f[3])
+		codes, err := parseU8(f[6])
+		if err != nil {
+			panic(err)
+		}
+		return implPqf(ns, k, l, w32(4), w32(5), codes)
+	case f[0] == "pqp" && len(f) == 6:
+		ns, _ := strconv.Atoi(f[1])
+		k, _ := strconv.Atoi(f[2])
+		cx, err := parseU8(f[4])
+		if err != nil {
+			panic(err)
+		}
+		cy, err := parseU8(f[5])
+		if err != nil {
+			panic(err)
+		}
+		return implPqp(ns, k, w32(3), cx, cy)
+	case f[0] == "bqw" && len(f) == 6:
+		return implBqw(f[1], w32(2), w32(3), w32(4))
 	case f[0] == "fdot" && len(f) == 3:
 		x, y := w32(1), w32(2)
 		s64, sabs, s32 := refDot(x, y)
